@@ -5,12 +5,14 @@ import NodisVerif.Model.Handler2
 import NodisVerif.Model.Handler3
 import NodisVerif.Driver.FragOps
 import NodisVerif.Driver.ProtoOps
+import NodisVerif.Model.Feed
 open NodisVerif
 
 structure DState where
   inst : List (String × Server) := []
   cur  : String := ""
   proto : Proto.PState := {}
+  feeds : List (String × List FeedOp) := []      -- per watched instance: records not yet drained (oldest first)
 
 def DState.sv (d : DState) : Server := ((d.inst.find? (·.1 == d.cur)).map (·.2)).getD {}
 def DState.putSv (d : DState) (sv : Server) : DState :=
@@ -50,6 +52,24 @@ def step (d : DState) (line : String) : DState × String :=
     | ["flush"] => (d.put (Store.flush s now), "ok")
     | ["sleep", _] => (d, "ok")
     | ["failset", k] => (d.put { s with failSet := k.toNat?.getD 0 }, "ok")
+    | "watch" :: _ => (d.put { s with listeners := true }, "ok")
+    | ["feed"] =>
+      let recs := ((d.feeds.find? (·.1 == d.cur)).map (·.2)).getD []
+      let parts := recs.map Feed.render
+      -- HMSET: the order comes out of a Go map; records setting different fields of one hash commute
+      let allHSet := recs.length > 1 && recs.all fun r => r.typ == 10 && r.key == (recs.head?.map (·.key)).getD []
+      let parts := if allHSet then parts.mergeSort (fun a b => decide (a ≤ b)) else parts
+      ({ d with feeds := d.feeds.filter (·.1 != d.cur) }, Wire.compact ("feed " ++ " ".intercalate parts))
+    | ["replicate", dst] =>
+      let recs := ((d.feeds.find? (·.1 == d.cur)).map (·.2)).getD []
+      let d := { d with feeds := d.feeds.filter (·.1 != d.cur) }
+      let rsv : Server := ((d.inst.find? (·.1 == dst)).map (·.2)).getD {}
+      if !(recs.all Feed.wireOk) then (d, "DECODE-ERROR") else
+      (match Feed.applyAll { rsv.store with signalled := [], held := [], hung := false } now recs with
+       | none => (d, "APPLY-ERROR")
+       | some r =>
+         let rsv := Server.applySignals { rsv with store := Store.syncShared { r with held := [] } }
+         ({ d with inst := (dst, rsv) :: d.inst.filter (·.1 != dst) }, s!"ok n={recs.length}"))
     | ["dump"] => (d, Driver.dumpState s)
     | ["ldump"] => (d, Driver.dumpState s (some now))
     | "api" :: method :: rest =>
@@ -57,7 +77,17 @@ def step (d : DState) (line : String) : DState × String :=
        | none => (d, "bad-op")
        | some (s', out) =>
          if s'.hung then (d.put (Store.syncShared s'), "HANG") else
-         let sv := Server.applySignals { d.sv with store := Store.syncShared { s' with held := [] } }
+         -- change feed: what this call hands to the watchers
+         let gs := Driver.groups rest
+         let info : Feed.CallInfo := match method, gs with
+           | "ZUnionStore", [_, ks, ws, a] | "ZInterStore", [_, ks, ws, a] =>
+             { method := method, keys := (Driver.gBs ks).getD [], weights := (Driver.gFs ws).getD [], aggregate := (Driver.gB a).getD [] }
+           | _, _ => { method := method, bs := gs.filterMap Driver.gB }
+         let recs := if s'.listeners then Feed.emission info out s'.feed.reverse else []
+         let d := if s'.listeners then
+             { d with feeds := (d.cur, ((d.feeds.find? (·.1 == d.cur)).map (·.2)).getD [] ++ recs) :: d.feeds.filter (·.1 != d.cur) }
+           else d
+         let sv := Server.applySignals { d.sv with store := Store.syncShared { s' with held := [], feed := [] } }
          (d.putSv sv, Driver.fmtOut (method == "ZUnion" || method == "ZInter") out))
     | "scanall" :: id :: rest =>
       let template := rest.map fun t => if t == "CUR" then none else Wire.parseArg t
